@@ -81,6 +81,16 @@ func VH_C13_Idle() {
 	}
 	lat := time.Duration(vIntRange("latency_pct", 0, 2)) * (pong * 45 / 100)
 	p.c2s.lat, p.s2c.lat = lat, lat
+	if lat == 0 && vBool("writes_return_late") {
+		// the stream write of a packet returns only after the (prompt)
+		// answer is already back
+		p.c2s.mu.Lock()
+		p.c2s.linger = 100 * time.Millisecond
+		p.c2s.mu.Unlock()
+		p.s2c.mu.Lock()
+		p.s2c.linger = 100 * time.Millisecond
+		p.s2c.mu.Unlock()
+	}
 	select {
 	case <-p.cli.quit:
 		vAssert(false, "keep-alive closed a healthy idle connection (client)")
